@@ -227,7 +227,10 @@ func (interp *Interpreter) gta(root *node, rpath, importPath, pkgName string) ([
 			}
 			// Try to import a binary package first, or a source package
 			var pkgName string
-			if packageName := path.Base(ipath); path.Dir(ipath) == packageName {
+			// A binary package may be named by the key it is exported under ("fmt/fmt").
+			// Do not touch the path otherwise: "a/a" is a legitimate source package path.
+			if packageName := path.Base(ipath); path.Dir(ipath) == packageName &&
+				interp.binPkg[ipath] == nil && interp.binPkg[packageName] != nil {
 				ipath = packageName
 			}
 			if pkg := interp.binPkg[ipath]; pkg != nil {
